@@ -46,6 +46,7 @@ type Options struct {
 	Cluster           *fakecql.Cluster // reuse an existing cluster (several proxies, one backend)
 	PreparedCache     proxycore.PreparedCache
 	ListenIP          string
+	RefreshWindow     time.Duration
 }
 
 type Env struct {
@@ -124,6 +125,7 @@ func Start(o Options) (*Env, error) {
 	} else {
 		proxycore.SetVerifHook(nil)
 	}
+	proxycore.VerifRefreshWindow.Store(int64(o.RefreshWindow))
 	ctx, cancel := context.WithCancel(context.Background())
 	e.cancel = cancel
 	cfg := proxy.Config{
@@ -382,6 +384,16 @@ func (s *Sink) Handle(point string, args ...interface{}) {
 			s.Spins[fmt.Sprint(ca, "/", st)]++
 			s.mu.Unlock()
 		}
+	case "slot.delay":
+		s.T.Emit("H.delay", "who", "pool", "host", proxycore.VerifPoolEndpoint(args[0]), "idx", args[1], "ns", int64(args[2].(time.Duration)))
+	case "ctrl.delay":
+		s.T.Emit("H.delay", "who", "ctrl", "host", "", "idx", 0, "ns", int64(args[1].(time.Duration)))
+	case "outage":
+		s.T.Emit("H.outage", "zero", args[1])
+	case "host.add":
+		s.T.Emit("H.hostadd", "host", args[1].(*proxycore.Host).Key())
+	case "host.remove":
+		s.T.Emit("H.hostremove", "host", args[1].(*proxycore.Host).Key())
 	case "slot.clear":
 		s.T.Emit("H.slotclear", "host", proxycore.VerifPoolEndpoint(args[0]), "idx", args[1])
 	case "slot.fill":
